@@ -22,6 +22,12 @@ side never has unread or still-arriving data):
      from inside dataReceived, so the transport is readable and writable in the same reactor event.
      Nobody half-closes here: a read/writeConnectionLost delivered while the peer has neither
      closed nor half-closed is reported (`halfclose-notification-without-half-close`).
+  g  application errors and re-entrancy: one side's dataReceived RAISES once it has received a
+     generated number of bytes (plain raise / abortConnection() then raise / loseConnection() then
+     raise); both sides, from inside connectionLost, call write, writeSequence, loseConnection,
+     abortConnection, pause/resumeProducing on the dying transport.  Oracle as for d: prefixes,
+     exactly one connectionLost per side, nothing after it; the reasons are not judged.
+12 % of the payload sizes are recv-buffer / SEND_LIMIT boundary values (65536, 131072, ... +-1).
 Some kind-a specs use the "bigtail" pattern: one write of 256 KiB..1 MiB (a multiple of SEND_LIMIT),
 a short trailer one reactor turn later, then loseConnection(), default socket buffers.
 Write ops: write(n) incl. n=0, writeSequence([..]) incl. empty chunks/empty list, delays (writes
@@ -51,7 +57,7 @@ import random
 LEVEL = "exploration"
 ENGINE = "E6-reactorproc"
 TECHNIQUE = "runtime monitoring: received-stream == generated payload (digest + incremental compare) and connectionLost exactly-once/reason checks on real loopback sockets per reactor"
-RULE = ("one case = (reactor class, connection spec); a spec = scenario kind a/b/c/d/e/f, closing/aborting role, per-direction "
+RULE = ("one case = (reactor class, connection spec); a spec = scenario kind a/b/c/d/e/f/g, closing/aborting role, per-direction "
         "payload (0..256 KiB quick, 0..4 MiB thorough) cut into generated write/writeSequence/delay ops, socket buffer "
         "sizes, receiver pause plans; the same specs run on all four reactors; distinct by (reactor, spec); "
         "non-trivial = at least one byte sent in some direction")
@@ -63,12 +69,16 @@ ASSUMPTIONS = [
 SHARDS = {"quick": 4, "thorough": 16}
 FLOORS = {
     "quick": {"conns_decided": 40, "connectionlost_observed": 80, "bytes_received": 1000000, "decided_select": 10, "decided_poll": 10,
-              "decided_epoll": 10, "decided_asyncio": 10, "kind_a": 4, "kind_b": 4, "kind_c": 4, "kind_d": 4, "kind_e": 4, "kind_f": 4, "acks_written": 8, "conns_exceeding_socket_buffers": 12},
+              "decided_epoll": 10, "decided_asyncio": 10, "kind_a": 4, "kind_b": 4, "kind_c": 4, "kind_d": 4, "kind_e": 4, "kind_f": 4, "kind_g": 4, "boundary_totals": 4, "acks_written": 8, "conns_exceeding_socket_buffers": 12},
     "thorough": {"conns_decided": 100, "connectionlost_observed": 200, "bytes_received": 10000000, "decided_select": 25, "decided_poll": 25,
-                 "decided_epoll": 25, "decided_asyncio": 25, "kind_a": 8, "kind_b": 8, "kind_c": 8, "kind_d": 8, "kind_e": 8, "kind_f": 8, "acks_written": 30, "conns_exceeding_socket_buffers": 30},
+                 "decided_epoll": 25, "decided_asyncio": 25, "kind_a": 8, "kind_b": 8, "kind_c": 8, "kind_d": 8, "kind_e": 8, "kind_f": 8, "kind_g": 8, "boundary_totals": 16, "acks_written": 30, "conns_exceeding_socket_buffers": 30},
 }
 WATCHDOG_S = {"quick": 600, "thorough": 3000}
 READY = True
+
+class PlannedAppError(Exception):
+    """Raised on purpose by a protocol's dataReceived (kind g)."""
+
 
 CONCURRENCY = 8
 NEVER_LOST_BOUND_S = 20.0
@@ -117,6 +127,7 @@ def scenario(reactor, inp):
             self.closing = False
             self.aborted = False
             self.half_requested = False
+            self.raised = False
             self.pauses = [list(p) for p in spec["pauses"][role]]
             self.n_pauses = 0
 
@@ -223,6 +234,16 @@ def scenario(reactor, inp):
                     self.transport.write(self.take(self.spec["final_len"]))
                     self.closing = True
                     self.transport.loseConnection()
+            elif self.kind == "g" and self.role == self.spec["closer"] and not self.raised and self.rx >= self.spec["raise_at"]:
+                self.raised = True
+                v = self.spec["g_variant"]
+                if v == "abort-then-raise":
+                    self.aborted = True
+                    self.transport.abortConnection()
+                elif v == "lose-then-raise":
+                    self.closing = True
+                    self.transport.loseConnection()
+                raise PlannedAppError("dataReceived of conn %s" % self.spec["id"])  # application bug: the reactor must drop the connection, once
             elif self.kind == "d" and self.role != self.spec["closer"]:
                 thr = self.spec.get("abort_when_peer_rx")
                 other = self.conn.sides[self.spec["closer"]]
@@ -236,6 +257,15 @@ def scenario(reactor, inp):
 
         def connectionLost(self, reason):
             self.lost.append([reason.type.__name__ if reason.type else "?", str(reason.value)[:120]])
+            if self.kind == "g" and len(self.lost) == 1:
+                # application code re-entering the dying transport from connectionLost: all no-ops
+                t = self.transport
+                t.write(b"late")
+                t.writeSequence([b"la", b"te"])
+                t.loseConnection()
+                t.abortConnection()
+                t.pauseProducing()
+                t.resumeProducing()
             self.conn.side_lost(self)
 
         def sent_len(self):
@@ -426,7 +456,12 @@ def gen_ops(rng, total):
     return ops
 
 
+BOUNDARY_TOTALS = [65535, 65536, 65537, 131071, 131072, 131073, 196608, 262144, 262145]  # recv bufferSize / SEND_LIMIT multiples +-1
+
+
 def gen_total(rng, quick):
+    if rng.random() < 0.12:
+        return rng.choice(BOUNDARY_TOTALS)
     r = rng.random()
     if r < 0.08:
         return 0
@@ -449,7 +484,7 @@ def gen_pauses(rng, total):
 
 
 def gen_spec(rng, cid, quick):
-    kind = "abcdef"[cid % 6] if rng.random() < 0.8 else rng.choice("abcdef")
+    kind = "abcdefg"[cid % 7] if rng.random() < 0.8 else rng.choice("abcdefg")
     closer = rng.choice(["client", "server"])
     spec = {"id": cid, "kind": kind, "closer": closer, "seed": rng.randrange(2 ** 40),
             "sndbuf": rng.choice([4096, 8192, 16384]), "rcvbuf": rng.choice([4096, 8192, 16384])}
@@ -464,6 +499,12 @@ def gen_spec(rng, cid, quick):
             tot[closer] = max(tot[closer], rng.randint(40000, 262144))  # a large write still pending at the close
     if kind == "d" and rng.random() < 0.5:
         tot["server" if closer == "client" else "client"] = 0
+    if kind == "g":
+        # `closer` is the side whose dataReceived raises once it has received `raise_at` bytes
+        o = "server" if closer == "client" else "client"
+        tot[o] = max(1, tot[o])
+        spec["raise_at"] = rng.randint(1, tot[o])
+        spec["g_variant"] = rng.choice(["raise", "abort-then-raise", "lose-then-raise"])
     other = "server" if closer == "client" else "client"
     custom = {}
     if kind == "f":
@@ -479,7 +520,7 @@ def gen_spec(rng, cid, quick):
         custom[closer] = []
         if rng.random() < 0.8:
             spec["sndbuf"] = spec["rcvbuf"] = 0
-    if kind == "a" and ((cid // 6) % 2 == 0 or rng.random() < 0.3):
+    if kind == "a" and ((cid // 7) % 2 == 0 or rng.random() < 0.3):
         # one whole-SEND_LIMIT-multiple write, a short trailer one reactor turn later, then the close
         big, trailer = rng.choice([262144, 262144, 262144, 524288, 1048576]), rng.randint(1, 2000)
         tot[closer] = big + trailer
@@ -538,6 +579,8 @@ def judge_conn(ctx, name, spec, rep):
         ctx.count("conns_exceeding_socket_buffers")
     if spec.get("bigtail"):
         ctx.count("bigtail_patterns")
+    if spec["c2s"]["total"] in BOUNDARY_TOTALS or spec["s2c"]["total"] in BOUNDARY_TOTALS:
+        ctx.count("boundary_totals")
     for role, peer, tape in (("client", "server", spec["s2c"]["total"]), ("server", "client", spec["c2s"]["total"])):
         r = rep[role]
         # kind f: what the acknowledging side sent depends on how the request was chunked
@@ -570,9 +613,9 @@ def judge_conn(ctx, name, spec, rep):
             else:
                 key = "stream-corrupted"
             ctx.violation(key, "the bytes received differ from the bytes written (not even a prefix)", wit)
-        elif kind != "d" and r["rx"] < sent:
+        elif kind not in "dg" and r["rx"] < sent:
             ctx.violation("orderly-close-truncated-stream", "after an orderly close the peer received only a proper prefix of the bytes written", wit)
-        if kind == "d":
+        if kind in "dg":
             ctx.count("abort_prefix_checks")
             if r["rx"] < sent:
                 ctx.count("abort_truncated_streams")
@@ -589,7 +632,7 @@ def judge_conn(ctx, name, spec, rep):
         if al["readConnectionLost"] or al["writeConnectionLost"]:
             ctx.violation("halfclose-notification-after-connectionlost", "read/writeConnectionLost was called after connectionLost", wit)
         first = r["lost"][0][0] if r["lost"] else None
-        if kind != "d" and first != "ConnectionDone":
+        if kind not in "dg" and first != "ConnectionDone":
             ctx.violation("orderly-close-reason-not-connectiondone", "connectionLost reason after an orderly close was %s" % first, wit)
         if kind == "d" and role == spec["closer"] and first != "ConnectionAborted":
             ctx.violation("abort-reason-not-connectionaborted", "the aborting side's connectionLost reason was %s" % first, wit)
